@@ -186,7 +186,7 @@ Definition item_decode_header (bs : list N) : res (list N * N * N) :=
   | fb :: r =>
     let code := N.shiftr (N.land fb 252) 2 in
     let lb := N.to_nat (N.land fb 3) in
-    if (length r <? lb)%nat then Err EIndex else
+    if shorter r lb then Err EIndex else
     Ok (skipn lb r, code, be_val (firstn lb r) 0)
   end.
 
